@@ -1,6 +1,7 @@
 package rules
 
 import (
+	"slipcheck/lenflow"
 	"fmt"
 	"go/ast"
 	"go/constant"
@@ -83,6 +84,250 @@ func runC03(c *core.Ctx, r *core.Reporter) {
 	c03char(c, r, m)
 	c03num(c, r, m)
 	c03local(c, r)
+	c03hex(c, r)
+}
+
+// c03hex: a value written as hexadecimal digits through a 16-entry digit table must have all its bits written.
+// For every value v whose nibbles index such a table in one function: the digits written are v&0xf, (v>>4)&0xf,
+// ... up to the highest shift; they cover 4*(n) bits; v must be known to fit (a dominating test v < C with
+// C <= 16^n) or the digits must cover the whole type. An unmasked v>>k additionally needs v < 16<<k (it is an index).
+func c03hex(c *core.Ctx, r *core.Reporter) {
+	const rule = "C03.hex"
+	r.Rule(rule, "in the printer (package slip), every value written as hexadecimal digits through a 16-entry digit table has all its significant bits written: the digits cover the type's width, or a dominating comparison bounds the value below 16^(number of digits); otherwise an escape such as #\\uXXXX silently drops the high bits and reads back as a different character", 1)
+	an := lenflow.New(c)
+	for _, fn := range c.ModuleFuncs() {
+		if fn.Pkg == nil || fn.Pkg.Pkg.Path() != core.SlipPath || takesTestingT(fn) {
+			continue
+		}
+		type use struct {
+			shift  int
+			masked bool
+			in     ssa.Instruction
+		}
+		uses := map[ssa.Value][]use{}
+		for _, b := range fn.Blocks {
+			for _, in := range b.Instrs {
+				var tab, idx ssa.Value
+				switch x := in.(type) {
+				case *ssa.Index:
+					tab, idx = x.X, x.Index
+				case *ssa.Lookup:
+					tab, idx = x.X, x.Index
+				default:
+					continue
+				}
+				ts, ok := core.StringConst(tab)
+				if !ok {
+					// a package-level variable initialised with a constant and never assigned elsewhere
+					if gv := globalOf(tab); gv != nil && !globalStoredOutsideInit(c, gv) {
+						if e, info := globalInit(c, gv.Object()); e != nil {
+							if tv, has := info.Types[e]; has && tv.Value != nil && tv.Value.Kind() == constant.String {
+								ts, ok = constant.StringVal(tv.Value), true
+							}
+						}
+					}
+				}
+				if !ok || strings.ToLower(ts) != "0123456789abcdef" {
+					continue
+				}
+				v, sh, masked, ok := nibbleOf(idx, 0)
+				if !ok {
+					continue
+				}
+				uses[v] = append(uses[v], use{sh, masked, in})
+			}
+		}
+		if len(uses) == 0 {
+			continue
+		}
+		var g *core.Guards
+		var vals []ssa.Value
+		for v := range uses {
+			vals = append(vals, v)
+		}
+		sort.Slice(vals, func(i, j int) bool { return vals[i].Name() < vals[j].Name() })
+		for _, v := range vals {
+			us := uses[v]
+			maxShift := 0
+			for _, u := range us {
+				if u.shift > maxShift {
+					maxShift = u.shift
+				}
+			}
+			bits := maxShift + 4
+			width := 64
+			if bt, ok := v.Type().Underlying().(*types.Basic); ok {
+				switch bt.Kind() {
+				case types.Int8, types.Uint8:
+					width = 8
+				case types.Int16, types.Uint16:
+					width = 16
+				case types.Int32, types.Uint32:
+					width = 32
+				}
+			}
+			if g == nil {
+				g = core.ComputeGuards(fn, an.NoReturn)
+			}
+			// the value must be bounded at every digit site
+			ok := true
+			detail := ""
+			for _, u := range us {
+				ub, has := upperBoundFromFacts(v, g.Facts(u.in.Block()))
+				need := bits
+				if !u.masked && u.shift+4 < need {
+					need = u.shift + 4 // an unmasked digit is also an index: v >> shift must be < 16
+				}
+				switch {
+				case has && ub <= (1<<uint(need)):
+				case !has && u.masked && bits >= width:
+				default:
+					ok = false
+					if has {
+						detail = fmt.Sprintf("the value is only known to be < %#x but %d bits are written", ub, need)
+					} else {
+						detail = fmt.Sprintf("no dominating comparison bounds the value; %d of its %d bits are written", bits, width)
+					}
+				}
+			}
+			if ok {
+				detail = fmt.Sprintf("%d hexadecimal digits cover the value at every site", bits/4)
+			}
+			r.Decide(ok, rule, core.SSAName(fn)+"|"+rootDesc(v), c.Pos(us[0].in.Pos()), detail)
+		}
+	}
+}
+
+// globalStoredOutsideInit: some function other than the package initialiser assigns the variable.
+func globalStoredOutsideInit(c *core.Ctx, g *ssa.Global) bool {
+	for _, fn := range c.ModuleFuncs() {
+		if fn.Name() == "init" && fn.Signature.Recv() == nil && fn.Parent() == nil && fn.Synthetic != "" {
+			continue
+		}
+		for _, b := range fn.Blocks {
+			for _, in := range b.Instrs {
+				if st, ok := in.(*ssa.Store); ok && st.Addr == ssa.Value(g) {
+					return true
+				}
+			}
+		}
+	}
+	return false
+}
+
+// nibbleOf decomposes an index expression into (value, shift, masked): v&0xf, (v>>k)&0xf, v>>k, through conversions.
+func nibbleOf(e ssa.Value, depth int) (ssa.Value, int, bool, bool) {
+	if depth > 6 {
+		return nil, 0, false, false
+	}
+	switch x := e.(type) {
+	case *ssa.Convert:
+		return nibbleOf(x.X, depth+1)
+	case *ssa.ChangeType:
+		return nibbleOf(x.X, depth+1)
+	case *ssa.BinOp:
+		k, isK := x.Y.(*ssa.Const)
+		if !isK || k.Value == nil || k.Value.Kind() != constant.Int {
+			return nil, 0, false, false
+		}
+		kv, _ := constant.Int64Val(k.Value)
+		switch x.Op {
+		case token.AND:
+			if kv != 0xf {
+				return nil, 0, false, false
+			}
+			if v, sh, _, ok := nibbleOf(x.X, depth+1); ok {
+				return v, sh, true, true
+			}
+			return x.X, 0, true, true
+		case token.SHR:
+			if kv%4 != 0 {
+				return nil, 0, false, false
+			}
+			inner := x.X
+			for {
+				if cv, ok := inner.(*ssa.Convert); ok {
+					inner = cv.X
+					continue
+				}
+				break
+			}
+			return inner, int(kv), false, true
+		}
+	}
+	return nil, 0, false, false
+}
+
+// upperBoundFromFacts: the smallest C with v < C implied by the comparisons that hold (v < C, v <= C-1, ...).
+func upperBoundFromFacts(v ssa.Value, facts map[core.EdgeFact]bool) (int64, bool) {
+	var best int64
+	found := false
+	for f := range facts {
+		bo, ok := f.If.Cond.(*ssa.BinOp)
+		if !ok {
+			continue
+		}
+		op := bo.Op
+		var kc *ssa.Const
+		strip := func(x ssa.Value) ssa.Value {
+			for {
+				if cv, ok := x.(*ssa.Convert); ok {
+					x = cv.X
+					continue
+				}
+				return x
+			}
+		}
+		switch {
+		case strip(bo.X) == v:
+			kc, _ = bo.Y.(*ssa.Const)
+		case strip(bo.Y) == v:
+			kc, _ = bo.X.(*ssa.Const)
+			switch op {
+			case token.LSS:
+				op = token.GTR
+			case token.LEQ:
+				op = token.GEQ
+			case token.GTR:
+				op = token.LSS
+			case token.GEQ:
+				op = token.LEQ
+			}
+		}
+		if kc == nil || kc.Value == nil || kc.Value.Kind() != constant.Int {
+			continue
+		}
+		cv, _ := constant.Int64Val(kc.Value)
+		if !f.Branch {
+			switch op {
+			case token.LSS:
+				op = token.GEQ
+			case token.LEQ:
+				op = token.GTR
+			case token.GTR:
+				op = token.LEQ
+			case token.GEQ:
+				op = token.LSS
+			case token.EQL:
+				op = token.NEQ
+			case token.NEQ:
+				op = token.EQL
+			}
+		}
+		var ub int64
+		switch op {
+		case token.LSS:
+			ub = cv
+		case token.LEQ, token.EQL:
+			ub = cv + 1
+		default:
+			continue
+		}
+		if !found || ub < best {
+			best, found = ub, true
+		}
+	}
+	return best, found
 }
 
 // c03local: a printing method that is handed the printer settings must use
